@@ -14,6 +14,9 @@
 (*  GameSpy 1 uses the same backslash grammar for its variables            *)
 (*     (\hostname\h<fragment>\queryid\5.1\final\): kind "gs1", replayed      *)
 (*     through the raw-variables query (C04).                              *)
+(*  GameSpy 3 separates the same pairs with NUL bytes and ends the         *)
+(*     variables with an empty key (hostname NUL h NUL <fragment> NUL):    *)
+(*     kind "gs3" (the symbol "0" stands for the NUL byte).                *)
 (* Lines inside the grammar (InDomain) must be decoded exactly as the      *)
 (* functions below say; for every other line the property C05 states       *)
 (* nothing and only C01 applies (an error or a response, never a panic).   *)
@@ -47,6 +50,18 @@ KvInDomain(f) ==
   /\ \A i \in 1 .. Len(KvPieces(f)) \div 2 : KvPieces(f)[2 * i - 1] # <<>>                      \* a variable has a name
   /\ \A i, j \in 1 .. Len(KvPieces(f)) \div 2 : i # j => KvPieces(f)[2 * i - 1] # KvPieces(f)[2 * j - 1]   \* named once
 KvExpected(f) == [i \in 1 .. Len(KvPieces(f)) \div 2 |-> <<KvPieces(f)[2 * i - 1], KvPieces(f)[2 * i]>>]
+
+-----------------------------------------------------------------------------
+(* GameSpy 3 variables: key NUL value NUL ... ; an empty key ends the section.  f is followed by the terminating NUL. *)
+NUL0 == "0"
+NulTokens(f) == Split(f \o <<NUL0>>, NUL0)             \* the last token is what follows the final NUL: empty
+RECURSIVE NulPairs(_)
+NulPairs(t) == IF Len(t) < 2 \/ t[1] = <<>> THEN <<>> ELSE <<<<t[1], t[2]>>>> \o NulPairs(SubSeq(t, 3, Len(t)))
+Gs3InDomain(f) ==
+  LET t == NulTokens(f) p == NulPairs(t) IN
+  /\ Len(t) = 2 * Len(p) + 1                          \* every key has a value and the only empty key is the terminator
+  /\ \A i, j \in 1 .. Len(p) : i # j => p[i][1] # p[j][1]
+Gs3Expected(f) == NulPairs(NulTokens(f))
 
 -----------------------------------------------------------------------------
 (* player line: split on spaces that are not inside double quotes *)
@@ -86,8 +101,9 @@ Lines(A, n) == UNION {[1 .. k -> A] : k \in 0 .. n}
 \* "plr": two numeric fields already in place, then every continuation over the characters that matter for names
 \* (long enough for a quoted name with a space in it, an address, unbalanced or doubled quotes, doubled spaces)
 Prefixes == {<<"1", SP, "1", SP>>, <<"-", "1", SP, "1", "1", SP>>}
-Init == /\ kind \in {"kv", "gs1", "pl", "plr"}
+Init == /\ kind \in {"kv", "gs1", "gs3", "pl", "plr"}
         /\ line \in CASE kind \in {"kv", "gs1"} -> Lines(KvAlphabet, KvMax)
+                    [] kind = "gs3" -> Lines({NUL0, "a", "b"}, KvMax)
                     [] kind = "pl" -> Lines(PlAlphabet, PlMax)
                     [] kind = "plr" -> {p \o r : p \in Prefixes, r \in Lines(RestAlphabet, RestMax)}
         /\ done = FALSE
@@ -96,6 +112,9 @@ Step == /\ ~done /\ done' = TRUE /\ UNCHANGED <<kind, line>>
               IF kind \in {"kv", "gs1"}
               THEN [kind |-> kind, line |-> line, indomain |-> KvInDomain(line),
                     expected |-> IF KvInDomain(line) THEN KvExpected(line) ELSE <<>>]
+              ELSE IF kind = "gs3"
+              THEN [kind |-> kind, line |-> line, indomain |-> Gs3InDomain(line),
+                    expected |-> IF Gs3InDomain(line) THEN Gs3Expected(line) ELSE <<>>]
               ELSE [kind |-> "pl", sub |-> kind, line |-> line, indomain |-> PlInDomain(line),
                     expected |-> IF PlInDomain(line) THEN <<PlExpected(line)>> ELSE <<>>])>>)
 Spec == Init /\ [][Step]_vars
